@@ -19,14 +19,15 @@ EXTENDS Integers, Sequences, FiniteSets, TLC, Json
 CONSTANTS Mode,        \* "server-udp" | "server-stream" | "client"
           Shapes       \* the shapes tried in this mode
 
-VARIABLES st, out, last
-vars == <<st, out, last>>
+VARIABLES st, out, last,
+          stun     \* client only: a STUN server address is configured besides the TURN server's (fixed at creation)
+vars == <<st, out, last, stun>>
 
-Init == st = "none" /\ out = {} /\ last = [a |-> "Init"]
+Init == st = "none" /\ out = {} /\ last = [a |-> "Init"] /\ stun \in (IF Mode = "client" THEN BOOLEAN ELSE {TRUE})
 
 Setup(kind) ==
   /\ st = "none"
-  /\ st' = kind /\ out' = {} /\ last' = [a |-> "Setup", kind |-> kind]
+  /\ st' = kind /\ out' = {} /\ last' = [a |-> "Setup", kind |-> kind] /\ UNCHANGED stun
 
 (* ---- server, datagram listener (internal/server/server.go HandleRequest) ---- *)
 Silent == [k |-> "outcome", cls |-> "silent", code |-> 0]
@@ -72,7 +73,9 @@ Client(sh) ==
     [] sh \in {"cdKnown", "cdKnownCookie"} -> Cl(TRUE, FALSE)
     [] sh = "cdUnknown" -> IF st = "udp" THEN Cl(TRUE, TRUE) ELSE Cl(TRUE, FALSE)    \* no relayed UDP socket: discarded silently
     [] sh = "cdLenOver" -> Cl(FALSE, FALSE)                                          \* not ChannelData, not STUN: app data
-    [] sh = "nonStunFromServer" -> Cl(TRUE, TRUE)
+    \* from the address of the STUN server but not STUN: an error -- when such an address is configured; a client
+    \* that only has a TURN server takes it for application data
+    [] sh = "nonStunFromServer" -> IF stun THEN Cl(TRUE, TRUE) ELSE Cl(FALSE, FALSE)
     [] sh \in {"burstData", "burstAttempts"} -> Cl(TRUE, FALSE)                      \* more than the queues hold: dropped, never blocking
 
 \* seeded byte-level mutations of well-formed messages: any outcome class, the endpoint stays alive
@@ -83,12 +86,12 @@ Outcome(sh) == IF sh = "mutated" THEN AnyOutcome ELSE IF Mode = "server-udp" THE
 Deliver(sh) ==
   /\ out' = {Outcome(sh)}
   /\ last' = [a |-> "Deliver", shape |-> sh, st |-> st]
-  /\ UNCHANGED st
+  /\ UNCHANGED <<st, stun>>
 
 Kinds == IF Mode = "client" THEN {"udp", "tcp"} ELSE IF Mode = "server-udp" THEN {"udp", "tcp"} ELSE {"udp"}
 Next == (\E k \in Kinds : Setup(k)) \/ (\E sh \in Shapes : Deliver(sh))
 Spec == Init /\ [][Next]_vars
-View == st
+View == <<st, stun>>
 
 \* C09: every shape has exactly one documented outcome, and no shape takes the endpoint down
 C09_Total == [][\A o \in out' : o.k \in {"outcome", "classified", "any"}]_vars
@@ -105,5 +108,5 @@ MCClient == {"appData", "empty", "one", "short19", "stunTruncated", "stunAttrOve
              "indUnknownMethod", "dataIndNoPeer", "dataIndNoData", "dataIndOK", "attemptNoPeer", "attemptNoID", "attemptOK",
              "cdKnown", "cdKnownCookie", "cdUnknown", "cdLenOver", "nonStunFromServer", "burstData", "burstAttempts", "mutated"}
 ASSUME PrintT("META " \o ToJson([Sys |-> "dispatch", Extra |-> [mode |-> Mode]]))
-EmitEdge == PrintT("EDGE " \o ToJson([s |-> [st |-> st], a |-> last', o |-> out', t |-> [st |-> st']]))
+EmitEdge == PrintT("EDGE " \o ToJson([s |-> [st |-> st, stun |-> stun], a |-> last', o |-> out', t |-> [st |-> st', stun |-> stun']]))
 =============================================================================
